@@ -16,7 +16,7 @@ MANIFEST = {
     'technique': 'runtime post-condition monitor on the real kdt_match with brute-force distance oracle, seeded random workload',
 }
 BUDGET_S = {'quick': 60, 'thorough': 360}
-NCASES = {'quick': 3000, 'thorough': 50000}
+NCASES = {'quick': 10000, 'thorough': 100000}
 RULE = ('seeded random feature arrays x K x bound; non-trivial = both sets have >= 2 rows and at least one pair was returned; '
         'distinct by sha1 of (x, y, K, bound)')
 ASSUMPTIONS = ['ties are judged with a 1e-12 relative slack on distances']
